@@ -196,7 +196,7 @@ def replay(case, rec):
 
 
 def units(tier, seed):
-    n = 50 if tier == "quick" else 800
+    n = 50 if tier == "quick" else 2500
     return [{"name": "enum-permutations", "kind": "enum"}] + [{"name": f"hyp{k:02d}", "kind": "hyp", "n": n} for k in range(15)]
 
 
